@@ -28,7 +28,7 @@ func Tiered(tier string) core.DischargeOpts {
 
 // QuickTimeout is the per-stage solver timeout of the quick tier; a driver whose obligations are few but large may
 // raise it (one property per process).
-var QuickTimeout = 10 * time.Second
+var QuickTimeout = 20 * time.Second
 
 // job: one function to verify against a spec.
 type Job struct {
